@@ -44,6 +44,13 @@ def session_lines(rng, kind, cfg_valid_dir, bad_dir, cfgA, nodesA, fi):
             else:
                 addr, t, data = gen_feedback(rng, m, cfgA, nodesA)
                 ls += [up(model.build_msg(addr, 0, t, data))]
+        if rng.random() < 0.25:
+            # the application re-reads the bus in mid-session (public bidib_send_sys_reset): what the session allocated until then is still the
+            # library's to release
+            ls += ['quiesce', 'reset', 'quiesce']
+            for i in range(rng.randrange(0, 6)):
+                addr, t, data = gen_feedback(rng, m, cfgA, nodesA)
+                ls += [up(model.build_msg(addr, 0, t, data))]
         if rng.random() < 0.35:
             # a board (possibly a track output) drops off the bus during the session: the shutdown commands are for what is connected THEN
             conn = [b for b in cfgA['boards'] if m.connected(b['id']) and m.addr[b['id']] != (0, 0, 0)]
